@@ -91,7 +91,7 @@ func hexVal(c byte) int {
 }
 
 // splitTop splits s at top-level occurrences of sep, honouring strings,
-// (), [], {}, comments and escapes. Comments are removed from the pieces.
+// (), [], {}, comments and escapes.
 func splitTop(s string, sep byte, firstOnly bool) []string {
 	var parts []string
 	var cur strings.Builder
@@ -106,12 +106,15 @@ func splitTop(s string, sep byte, firstOnly bool) []string {
 				cur.WriteByte(s[i])
 			}
 		case c == '/' && i+1 < len(s) && s[i+1] == '*':
+			// a comment never contains a separator; its text stays part of the piece (the
+			// property speaks of lower-casing and escape decoding only)
 			j := strings.Index(s[i+2:], "*/")
-			if j < 0 {
-				i = len(s)
-			} else {
-				i = i + 2 + j + 1
+			end := len(s)
+			if j >= 0 {
+				end = i + 2 + j + 2
 			}
+			cur.WriteString(s[i:end])
+			i = end - 1
 		case c == '"' || c == '\'':
 			cur.WriteByte(c)
 			for i++; i < len(s); i++ {
